@@ -62,7 +62,10 @@ func (t *T0x0801) Encode() []byte {
 }
 
 func (t *T0x0801) ReplyBody(jtMsg *jt808.JTMessage) ([]byte, error) {
-	_ = t.Parse(jtMsg)
+	if err := t.Parse(jtMsg); err != nil {
+		// 解析失败时不能沿用上一条报文(或默认值)留下的多媒体ID去应答
+		t.MultimediaID = 0
+	}
 	p8800 := P0x8800{
 		MultimediaID: t.MultimediaID, // 直接全部完成 不补包
 	}
